@@ -29,10 +29,27 @@ fn vio(class: &str, what: String, case: &Case, w: Option<&[u8]>, detail: Value) 
 pub fn lr_grammars(tier: Tier) -> Vec<Gram> {
     let sp = match tier {
         Tier::Quick => BnfSpace { max_nt: 2, max_t: 2, max_len: 3, max_alts: 3, max_size: 8 },
-        Tier::Thorough => BnfSpace { max_nt: 3, max_t: 2, max_len: 3, max_alts: 3, max_size: 9 },
+        Tier::Thorough => BnfSpace { max_nt: 2, max_t: 2, max_len: 3, max_alts: 3, max_size: 9 },
     };
-    let mut v = enum_bnf(&sp, true);
-    v.retain(|g| Bnf::of(g).well_formed_lr());
+    let sp3 = match tier {
+        Tier::Quick => BnfSpace { max_nt: 3, max_t: 2, max_len: 3, max_alts: 2, max_size: 8 },
+        Tier::Thorough => BnfSpace { max_nt: 3, max_t: 2, max_len: 3, max_alts: 2, max_size: 10 },
+    };
+    let mut v = enum_bnf_pre(&sp, true, Pre::WellFormedLr);
+    let mut three = enum_bnf_pre(&sp3, true, Pre::WellFormedLr);
+    three.retain(|g| g.nts.len() == 3);
+    // the order of non-terminal names relative to the order of their productions matters to
+    // parol (index = alphabetical order): also the variant with reversed non-start names
+    let rev: Vec<Gram> = three
+        .iter()
+        .map(|g| {
+            let mut g2 = g.clone();
+            g2.nts = vec!["M".into(), "Z".into(), "Y".into()];
+            g2
+        })
+        .collect();
+    v.extend(three);
+    v.extend(rev);
     match tier {
         Tier::Quick => {
             v.extend(enum_ebnf(5, 2, 2, false, true));
